@@ -416,7 +416,88 @@ def static_language_restriction(reg, tier):
                  time_s=0.0, model=None if ok else {'detail': offenders[:12]}, reason='' if ok else f'{len(offenders)} of {loops_seen} rule loops never read rule.lang: {offenders[:3]}')]
 
 
-EXTRA_OBLIGATIONS = [static_language_restriction]
+def static_rule_lists_append_only(reg, tier):
+    """"adding rules never removes previously reported flows" starts at the rule lists: every configured rule entry becomes one element of its list. Structural (writer
+    inventory over all of src/lian + shape of RuleManager.init): the five lists are bound once to [] in RuleManager.__init__, their only other writer is an UNCONDITIONAL
+    `.append(new_rule)` directly in a `for rule in rules:` body of RuleManager.init, no alias of a list is mutated, and every attribute of the constructed rule except
+    kind/lang is read from the entry under its own name (`x=rule.get("x", ...)`)."""
+    import os
+    from lianvc import source
+    LISTS = ('all_sources', 'all_sinks', 'all_propagations', 'all_sources_from_code', 'all_sinks_from_code')
+    MUT = ('remove', 'pop', 'clear', 'insert', 'extend', 'sort', 'reverse', '__setitem__', '__delitem__', 'append')
+    bad, appends, ctor_bad = [], 0, []
+    root = os.path.join(source.REPO, 'src', 'lian')
+    for dp, dn, fns in os.walk(root):
+        for f_ in sorted(fns):
+            if not f_.endswith('.py'):
+                continue
+            pth = os.path.join(dp, f_)
+            rel = os.path.relpath(pth, source.REPO)
+            try:
+                tree = ast.parse(open(pth, encoding='utf-8').read())
+            except SyntaxError:
+                continue
+            par = {}
+            for n in ast.walk(tree):
+                for ch in ast.iter_child_nodes(n):
+                    par[id(ch)] = n
+
+            def enclosing(n, kinds):
+                n = par.get(id(n))
+                while n is not None and not isinstance(n, kinds):
+                    n = par.get(id(n))
+                return n
+            for n in ast.walk(tree):
+                if not (isinstance(n, ast.Attribute) and n.attr in LISTS):
+                    continue
+                p_ = par.get(id(n))
+                stmt = n if isinstance(n, ast.stmt) else enclosing(n, ast.stmt)
+                fn = enclosing(n, (ast.FunctionDef, ast.AsyncFunctionDef))
+                cls = enclosing(fn, ast.ClassDef) if fn is not None else None
+                fq = (cls.name + '.' if cls is not None else '') + (fn.name if fn is not None else '<module>')
+                where = f'{rel}:{n.lineno} {fq}: {ast.unparse(stmt)[:70]}'
+                if isinstance(n.ctx, (ast.Store, ast.Del)):
+                    if not (fq == 'RuleManager.__init__' and isinstance(stmt, ast.Assign) and isinstance(stmt.value, ast.List) and not stmt.value.elts):
+                        bad.append('re-bound: ' + where)
+                elif isinstance(p_, ast.Attribute) and p_.value is n:
+                    if p_.attr == 'append' and fq == 'RuleManager.init':
+                        loop = par.get(id(stmt))
+                        if isinstance(stmt, ast.Expr) and isinstance(loop, ast.For) and stmt in loop.body and ast.unparse(loop.target) == 'rule' and ast.unparse(loop.iter) == 'rules' \
+                                and not any(isinstance(x, (ast.Continue, ast.Break, ast.Return)) for b_ in loop.body for x in ast.walk(b_)):
+                            appends += 1
+                            ctor = [b_ for b_ in loop.body if isinstance(b_, ast.Assign) and ast.unparse(b_.targets[0]) == ast.unparse(stmt.value.args[0]) and isinstance(b_.value, ast.Call)]
+                            if len(ctor) != 1:
+                                ctor_bad.append(f'{where}: the appended object is not constructed once in the loop body')
+                            else:
+                                for kw in ctor[0].value.keywords:
+                                    if kw.arg in ('kind', 'lang'):
+                                        continue
+                                    v = kw.value
+                                    if not (isinstance(v, ast.Call) and ast.unparse(v.func) == 'rule.get' and v.args and isinstance(v.args[0], ast.Constant) and v.args[0].value == kw.arg):
+                                        ctor_bad.append(f'{rel}:{v.lineno} {kw.arg}={ast.unparse(v)[:40]}')
+                        else:
+                            bad.append('conditional / misplaced append: ' + where)
+                    elif p_.attr in MUT:
+                        bad.append(f'mutated ({p_.attr}): ' + where)
+                elif isinstance(p_, ast.Subscript) and p_.value is n and isinstance(p_.ctx, (ast.Store, ast.Del)):
+                    bad.append('item write: ' + where)
+                elif isinstance(p_, ast.AugAssign) and p_.target is n:
+                    bad.append('augmented: ' + where)
+                elif isinstance(p_, ast.Assign) and p_.value is n and fn is not None:
+                    for t_ in p_.targets:
+                        if isinstance(t_, ast.Name):
+                            for x in ast.walk(fn):
+                                if isinstance(x, ast.Attribute) and isinstance(x.value, ast.Name) and x.value.id == t_.id and x.attr in MUT and isinstance(par.get(id(x)), ast.Call):
+                                    bad.append(f'mutated through alias {t_.id}: ' + where)
+                                if isinstance(x, ast.Subscript) and isinstance(x.value, ast.Name) and x.value.id == t_.id and isinstance(x.ctx, (ast.Store, ast.Del)):
+                                    bad.append(f'item write through alias {t_.id}: ' + where)
+    ok = appends == 5 and not bad and not ctor_bad
+    detail = (bad + ctor_bad)[:8] or [f'expected 5 unconditional appends in RuleManager.init, found {appends}']
+    return [dict(name=f'{PROPERTY}:static:rule-lists-are-append-only-(one-element-per-configured-rule,-attributes-taken-from-the-entry)', kind='static',
+                 verdict='unsat' if ok else 'sat', backend='ast-evaluation', time_s=0.0, model=None if ok else {'detail': detail}, reason='' if ok else str(detail[:3]))]
+
+
+EXTRA_OBLIGATIONS = [static_language_restriction, static_rule_lists_append_only]
 
 ASSUMPTIONS = [
     'THE DATA-DEPENDENCE HALF IS NOT PROVED: that a non-zero intersection of the propagated tag and the sink tag implies a dependence in the program needs soundness of the SFG '
